@@ -219,6 +219,22 @@ impl C17 {
         }
         let bal = |l: &Ledger, k: &Pubkey| token_amount(l, k) as i128;
         let (in0, mid0, out0) = (bal(&fb, &in_acct), bal(&fb, &mid_acct_1), bal(&fb, &out_acct));
+        // a cyclic route (X -> Y -> X through two pools of one pair) pays into and out of the same trader account: what the
+        // trader paid and received is then read off the vaults (plain mints: nothing is withheld on the way)
+        let cyclic = in_acct == out_acct;
+        let vin = if a.a_to_b_one { lg.s1.vault_a } else { lg.s1.vault_b };
+        let vout = if a.a_to_b_two { lg.s2.vault_b } else { lg.s2.vault_a };
+        let (vin0, vout0) = (bal(&fb, &vin), bal(&fb, &vout));
+        let flows = |l: &Ledger| -> (i128, i128) {
+            if cyclic {
+                (bal(l, &vin) - vin0, vout0 - bal(l, &vout))
+            } else {
+                (in0 - bal(l, &in_acct), bal(l, &out_acct) - out0)
+            }
+        };
+        if cyclic {
+            cov.probe("cyclic_route_compared");
+        }
         let singles: Result<(i128, i128, i128, i128), String> = (|| {
             if a.is_input {
                 let a1 = SwapArgs { amount: a.amount, other_amount_threshold: 0, sqrt_price_limit: a.limit_one, amount_specified_is_input: true, a_to_b: a.a_to_b_one };
@@ -237,7 +253,10 @@ impl C17 {
                     return Err(format!("leg two fails alone: {:?}", o2.custom()));
                 }
                 let mid_in = mid_before_2 - bal(&fb, &mid_acct_2);
-                Ok((in0 - bal(&fb, &in_acct), mid_out, mid_in, bal(&fb, &out_acct) - out0))
+                {
+                    let (p, g) = flows(&fb);
+                    Ok((p, mid_out, mid_in, g))
+                }
             } else {
                 // learn the intermediate amount from leg two on a scratch fork
                 let a2 = SwapArgs { amount: a.amount, other_amount_threshold: u64::MAX, sqrt_price_limit: a.limit_two, amount_specified_is_input: false, a_to_b: a.a_to_b_two };
@@ -269,7 +288,10 @@ impl C17 {
                     return Err(format!("leg two fails after leg one: {:?}", o2.custom()));
                 }
                 let mid_in = mid_before_2 - bal(&fb, &mid_acct_2);
-                Ok((in0 - bal(&fb, &in_acct), mid_out, mid_in, bal(&fb, &out_acct) - out0))
+                {
+                    let (p, g) = flows(&fb);
+                    Ok((p, mid_out, mid_in, g))
+                }
             }
         })();
         let key = format!(
@@ -302,7 +324,7 @@ impl C17 {
                     }
                 }
                 if all_plain {
-                    let (tin, tout) = (in0 - bal(post, &in_acct), bal(post, &out_acct) - out0);
+                    let (tin, tout) = flows(post);
                     let tmid = bal(post, &mid_acct_1) - mid0;
                     if tin != *paid || tout != *got || tmid != 0 {
                         out.push(viol("trader_balances_differ", idx, format!("two-hop: paid {} got {} intermediate {:+}; singles: paid {} got {}", tin, tout, tmid, paid, got)));
@@ -551,6 +573,43 @@ impl Monitor for C17 {
         }
         if ev.out.ok && out.is_empty() {
             supplemental_lists(ixn, ev.pre, ev.post, ev.salt, ev.idx, cov, &mut out);
+        }
+        // "fails if either leg would fail on its own": a trader one unit short of the first leg's input cannot pay for the
+        // first leg, so the two-hop must fail - also on a cyclic route (X -> Y -> X through two pools of the same pair) where
+        // the input and the output account are the same account and the proceeds arrive in it
+        if ev.out.ok && out.is_empty() {
+            if let Some(lg) = legs(&c, ev.pre) {
+                let a = wpix::two_hop_args(&c);
+                let in_mint = if a.a_to_b_one { lg.s1.mint_a } else { lg.s1.mint_b };
+                let in_acct = if a.a_to_b_one { lg.sa1.owner_a } else { lg.sa1.owner_b };
+                let in_acct = if lg.v2 { c.a("token_owner_account_input") } else { in_acct };
+                if is_plain(ev.pre, &in_mint) {
+                    // what the first leg took from the trader: the input vault's gain
+                    let vault = if a.a_to_b_one { lg.s1.vault_a } else { lg.s1.vault_b };
+                    let took = crate::world::token_amount(ev.post, &vault) as i128 - crate::world::token_amount(ev.pre, &vault) as i128;
+                    // (on a cyclic route the same vault may also pay out in leg two only if both pools share it - they do not)
+                    if took > 0 {
+                        if let Some(acc) = ev.pre.get(&in_acct).cloned() {
+                            if acc.data.len() >= 72 {
+                                let mut d = (*acc.data).clone();
+                                d[64..72].copy_from_slice(&((took - 1) as u64).to_le_bytes());
+                                let mut f = ev.pre.clone();
+                                f.put(in_acct, rt::Account { lamports: acc.lamports, data: std::rc::Rc::new(d), owner: acc.owner, executable: false });
+                                let r = run(&mut f, ixn.clone());
+                                let cyclic = lg.v2 && c.a("token_owner_account_input") == c.a("token_owner_account_output");
+                                cov.probe("underfunded_by_one_forks");
+                                if cyclic {
+                                    cov.probe("underfunded_cyclic_route_forks");
+                                }
+                                cov.eval(format!("{}|underfunded_by_one|cyclic={}|ok={}", c.name(), cyclic, r.ok));
+                                if r.ok {
+                                    out.push(viol("accepted_although_a_leg_fails_alone", ev.idx, format!("{} succeeds for a trader holding {} of the input token although its first leg takes {}{}", c.name(), took - 1, took, if cyclic { " (cyclic route: input and output are the same account)" } else { "" })));
+                                }
+                            }
+                        }
+                    }
+                }
+            }
         }
         let _: Option<IxView> = None;
         out
